@@ -197,6 +197,26 @@ def obs_steps_and_judge(obs, tx_index):
             native = 'ok' if 'ok' in r else 'err'
             if native != st:
                 diffs.append('status predicted %s native %s (%s)' % (st, native, json_short(r)))
+        # attributes reported by the observed transaction (`attr:<key>`) and fields of the query answered right before it (`prevq:<field>`)
+        for k, v in obs.items():
+            if k.startswith('attr:') and 'ok' in res[tx_index]:
+                key = k[5:]
+                found = [a[1] for ev in res[tx_index]['ok'].get('events', []) if ev.get('type') == 'wasm' for a in ev.get('attrs', []) if a[0] == key]
+                nv = found[0] if found else None
+                if nv is not None and isinstance(v, int):
+                    try:
+                        nv = int(nv)
+                    except ValueError:
+                        pass
+                if nv != v:
+                    diffs.append('%s predicted %s native %s' % (k, v, nv))
+            elif k.startswith('prevq:') and tx_index > 0:
+                rq = res[tx_index - 1]
+                nv = rq['ok'].get(k[6:]) if ('ok' in rq and isinstance(rq['ok'], dict)) else None
+                if nv is not None and isinstance(v, int):
+                    nv = int(nv)
+                if nv != v:
+                    diffs.append('%s predicted %s native %s' % (k, v, nv))
         for i, k in enumerate(keys):
             r = res[base + i]
             if k.startswith('poolq:'):
@@ -275,6 +295,21 @@ def generic_replay(build):
         return sc, judge
     rb.generic = True          # compares predicted observables with native ones (usable for fidelity runs on the unchanged tree)
     return rb
+
+
+def response_attr(resp, key):
+    """value of the first attribute `key` of a contract Response: an integer term for amounts printed with to_string, else the string"""
+    from ..models_core import deref
+    for a in deref(resp).get('attributes').e:
+        a = deref(a)
+        if deref(a.f[0]) == key:
+            v = deref(a.f[1])
+            if isinstance(v, Opaque) and v.tag == 'text':
+                return v.data
+            if isinstance(v, str) and v.isdigit():
+                return int(v)
+            return v
+    return None
 
 
 # ---------------------------------------------------------------- abstraction of the pricing kernel
